@@ -16,6 +16,7 @@ judge       : C13's own oracle on the real code for every corrupted file (struct
 NOT proved  : "no internal exception escapes from any Python expression reachable from read_input" (needs a model of
               CPython); that part is exploration (corruption enumeration) and is labelled so in the evidence.
 """
+import copy
 import json
 import os
 
@@ -283,6 +284,26 @@ def out_of_model_scope(items):
     return any(mats.count(n) >= 2 and mts.count(n) >= 2 for n in set(mats))
 
 
+PER_INPUT = {"MalformedInputError", "ParsingError", "UnsupportedFeature", "UnknownElement", "NumberConflictError"}
+
+
+def judge_abandoned(case, obs):
+    """check mode reports *the same conditions*: a file with k >= 2 inputs that each fail on their own (per-input
+    faults of the generator, independent of each other) must give at least k per-input warnings — check mode must
+    not abandon the file at the first of them.  Judged on the real code, without the model."""
+    k = sum(1 for i in case.get("items", []) if i.get("fault"))
+    if k < 2 or any(i.get("t") == "reader" for i in case["items"]) or obs["check"]["out"] != "returns":
+        return []
+    got = [w for w in obs["check"]["warnings"] if w in PER_INPUT]
+    if len(got) >= k:
+        return []
+    first = got[0] if got else None
+    return [(
+        {"mechanism": "error-policy", "corruption": "double", "class": "check-mode-abandoned", "exception": first},
+        f"{k} inputs of the file fail on their own, check mode reports {len(got)} of them ({obs['check']['warnings']}): the rest of the file was abandoned",
+    )]
+
+
 def struct_cases(chk):
     rng = chk.rng("struct")
     nbase = chk.pick(10, 60)
@@ -303,6 +324,22 @@ def struct_cases(chk):
             k2, d2 = rng.choice(second)
             b, items = G.render(d2)
             cases.append({"kind": k1 + "+" + k2, "bundle": b, "items": items, "desc": i})
+        # two inputs that each fail on their own (per-input fault recipes on different inputs), in both orders
+        faults = [(k, d) for k, d in singles if k.startswith("fault:")]
+        for _ in range(chk.pick(12, 40)):
+            if len(faults) < 2:
+                break
+            (k1, d1), (k2, d2) = rng.sample(faults, 2)
+            d = copy.deepcopy(d1)
+            moved = False
+            for block in ("cells", "surfaces", "data"):
+                for idx, x in enumerate(d2[block]):
+                    if x.get("fault") and not d[block][idx].get("fault"):
+                        d[block][idx]["fault"] = x["fault"]
+                        moved = True
+            if moved:
+                b, items = G.render(d)
+                cases.append({"kind": k1 + "+" + k2, "bundle": b, "items": items, "desc": i})
     return cases
 
 
@@ -373,12 +410,20 @@ def report_violations(chk, case, verdicts):
         return
     obs2 = L.run_bundle(case["bundle"])
     kind = verdicts[0][0].get("corruption", case["kind"])
-    again = L.judge(case["bundle"], obs2, kind)
+    again = L.judge(case["bundle"], obs2, kind) + (judge_abandoned(case, obs2) if "items" in case else [])
     confirmed = [(s, w) for s, w in again if any(s == s0 for s0, _ in verdicts)]
     if not confirmed:
         chk.count("flaky:violation-not-reproduced")
         return
     for sig, what in confirmed:
+        if sig["class"] == "check-mode-abandoned":
+            # generated files are a dozen lines; the verdict needs the generator's description, so no line shrinking
+            chk.violation(sig, what, {"bundle": case["bundle"], "kind": case["kind"], "items": case["items"], "observed": obs2})
+            continue
+        if any(all(sig.get(k) == v for k, v in f["signature"].items()) for f in chk.known):
+            # a listed finding (it has a committed minimised replay): counted, not shrunk again
+            chk.violation(sig, what, {"bundle": case["bundle"], "kind": case["kind"], "base": case.get("base")})
+            continue
         key = canon({k: v for k, v in sig.items() if k != "corruption"})
         store = chk.extra.setdefault("_seen_sigs", {})
         if key in store and store[key] >= 2:
@@ -449,6 +494,7 @@ def run(chk):
             chk.count("struct:" + k.split(":")[0])
         kind = case["kind"] if "+" not in case["kind"] else "double"
         verdicts = L.judge(case["bundle"], obs, kind)
+        verdicts += judge_abandoned(case, obs)
         if verdicts:
             report_violations(chk, case, verdicts)
             continue  # the property itself is violated here: the rest is not compared
